@@ -142,12 +142,7 @@ func checkC04(c *Check) {
 	s, isS := constString(ct)
 	c.Obl(hasCT && isS && s == "application/x-www-form-urlencoded", "C04.R2", "headers/content-type", P.Pos(m.CbExchange.Pos()), "content-type form-urlencoded", "content-type of the token request is not application/x-www-form-urlencoded")
 	// URL
-	okURL := false
-	for i, p := range R.TokenExchange.Params {
-		if isString(p.Type()) && cfgGetter(m.CbExchange.Common().Args[i], "GetTokenUri") {
-			okURL = true
-		}
-	}
+	okURL := exchangeURLOK(R, m.CbExchange)
 	c.Obl(okURL, "C04.R2", "url", P.Pos(m.CbExchange.Pos()), "request goes to the configured token URI", "the code exchange is not sent to the configured token URI")
 	c04Exchange(c, R)
 	// BasicAuthHeader shape: "Basic " + base64(id + ":" + secret)
@@ -265,7 +260,7 @@ func c04Exchange(c *Check, R *Roles) {
 	for _, ci := range callsTo(ex, "net/http.NewRequest", "net/http.NewRequestWithContext") {
 		nr, _ = ci.(*ssa.Call)
 	}
-	if !c.Anchor("C04.R2", "http.NewRequest in the exchange function", nr != nil && form != nil && hdr != nil && uri != nil) {
+	if !c.Anchor("C04.R2", "http.NewRequest in the exchange function", nr != nil && form != nil && hdr != nil) {
 		return
 	}
 	args := nr.Common().Args
@@ -294,7 +289,33 @@ func c04Exchange(c *Check, R *Roles) {
 			doOK = true
 		}
 	}
-	c.Obl(meth == "POST" && args[off+1] == uri && bodyOK && hdrOK && doOK, "C04.R2", "exchange-sends-table", P.Pos(nr.Pos()),
+	// the URL is the string parameter (the callers pass the configured token URI, checked at each call
+	// site) or the configured token URI read in the exchange function itself
+	uriOK := (uri != nil && args[off+1] == ssa.Value(uri)) || cfgGetter(args[off+1], "GetTokenUri")
+	c.Obl(meth == "POST" && uriOK && bodyOK && hdrOK && doOK, "C04.R2", "exchange-sends-table", P.Pos(nr.Pos()),
 		"POST uri with body form.Encode() and the given headers, sent with client.Do",
-		fmt.Sprintf("the exchange function does not POST the encoded form with the given headers to the given URI (method %q, uri ok %v, body ok %v, headers ok %v, sent %v)", meth, args[off+1] == uri, bodyOK, hdrOK, doOK))
+		fmt.Sprintf("the exchange function does not POST the encoded form with the given headers to the given URI (method %q, uri ok %v, body ok %v, headers ok %v, sent %v)", meth, uriOK, bodyOK, hdrOK, doOK))
+}
+
+// exchangeURLOK: the token request of call (a call of the exchange function) goes to the configured
+// token URI: either the exchange function's NewRequest takes a string parameter to which this call
+// passes config.GetTokenUri(), or it reads config.GetTokenUri() itself.
+func exchangeURLOK(R *Roles, call ssa.CallInstruction) bool {
+	ex := R.TokenExchange
+	if ex == nil || call == nil {
+		return false
+	}
+	for _, ci := range callsTo(ex, "net/http.NewRequest", "net/http.NewRequestWithContext") {
+		args := ci.Common().Args
+		u := args[len(args)-2]
+		if cfgGetter(u, "GetTokenUri") {
+			return true
+		}
+		for i, p := range ex.Params {
+			if ssa.Value(p) == u && i < len(call.Common().Args) && cfgGetter(call.Common().Args[i], "GetTokenUri") {
+				return true
+			}
+		}
+	}
+	return false
 }
